@@ -46,6 +46,11 @@ func init() {
 			mk("ComputeIfAbsent‖Invalidate", CacheCfg{}, []string{"set 1"}, [][]string{{"cia 1"}, {"inv 1"}})
 			mk("Compute‖Compute", CacheCfg{}, []string{"set 1"}, [][]string{{"cw 1", "get 1"}, {"ci 1", "get 1"}})
 			mk("Set‖Set(evicting)", CacheCfg{MaxSize: 1}, []string{"set 1"}, [][]string{{"set 2", "get 1"}, {"set 3", "get 2"}})
+			// the eviction policy meets a node that was already replaced or removed: it must not be counted as an eviction
+			mk("update‖insert-evict", CacheCfg{MaxSize: 2}, []string{"set 1", "set 2"}, [][]string{{"set 1"}, {"set 3"}})
+			mk("invalidate‖insert-evict", CacheCfg{MaxSize: 2}, []string{"set 1", "set 2"}, [][]string{{"inv 1"}, {"set 3"}})
+			mk("update‖setmax", CacheCfg{MaxWeight: 4}, []string{"set 1 2", "set 2 1"}, [][]string{{"set 1 1"}, {"setmax 1"}})
+			mk("update‖expire", CacheCfg{Expiry: "writing", TTL: 10, ClockStart: 1 << 40}, []string{"set 1", "set 2"}, [][]string{{"set 1"}, {"adv 5000000000", "cleanup"}})
 		}
 		return jobs
 	}
@@ -60,6 +65,10 @@ func init() {
 					need = []string{"reads-during-reload"}
 				}
 				jobs = append(jobs, concJob("staleGet("+o+")‖readers/"+ex, cfg, []string{"set 1", "adv 50"}, [][]string{{"load 1 " + o}, {"get 1", "get 1"}}, []string{"refresh-readers", "audit"}, "native", 12, true, 4, 60, need...))
+				// an explicit Refresh that joins the reload started by a stale read (or another Refresh, or a loading Get)
+				jobs = append(jobs, concJob("staleGet("+o+")‖Refresh/"+ex, cfg, []string{"set 1", "adv 50"}, [][]string{{"load 1 " + o}, {"refresh 1 val"}}, []string{"refresh-results", "refresh-readers", "audit"}, "native", 12, true, 4, 60, "refresh-results"))
+				jobs = append(jobs, concJob("Refresh("+o+")‖Refresh/"+ex, cfg, []string{"set 1"}, [][]string{{"refresh 1 " + o}, {"refresh 1 val"}}, []string{"refresh-results", "audit"}, "native", 12, true, 4, 60, "refresh-results"))
+				jobs = append(jobs, concJob("missGet("+o+")‖Refresh/"+ex, cfg, nil, [][]string{{"load 1 " + o}, {"refresh 1 val"}}, []string{"refresh-results", "audit"}, "native", 12, true, 4, 60, "refresh-results"))
 			}
 		}
 		return jobs
@@ -85,6 +94,23 @@ func init() {
 			a := baseAlphabet([]int{1, 2, 3}, cfg, true)
 			jobs = append(jobs, seqJob(seqParams{Cfg: cfg, Alphabet: a, Kinds: kinds}, depth, 4, budget))
 		}
+		return jobs
+	}
+
+	// ---- C15 cache level: All/Keys under concurrent writes, also while the table grows ----
+	tab15 := plans["C15"]
+	plans["C15"] = func(thorough bool) []*Job {
+		jobs := tab15(thorough)
+		pb, budget := 2, 60
+		if thorough {
+			pb, budget = 3, 600
+		}
+		or := []string{"iter", "lin"}
+		jobs = append(jobs, concJob("All‖writers", CacheCfg{Collide: true}, []string{"set 1", "set 2", "set 3"}, [][]string{{"all"}, {"inv 1", "set 4"}, {"set 2"}}, or, "native", pb, false, 8, budget, "iterations-checked"))
+		jobs = append(jobs, concJob("Keys‖delete-reinsert", CacheCfg{Collide: true}, []string{"set 0", "set 1", "set 2", "set 3", "set 4"}, [][]string{{"keys"}, {"inv 0", "set 5", "set 0"}}, or, "native", pb, false, 8, budget, "iterations-checked"))
+		spread := []uint64{hsh(0, 1), hsh(2, 2), hsh(4, 3), hsh(6, 4), hsh(0, 5), hsh(2, 6), hsh(1, 7), hsh(3, 8), hsh(1, 9), hsh(3, 10), hsh(5, 11)}
+		fill8 := []string{"set 0", "set 1", "set 2", "set 3", "set 4", "set 6", "set 7", "set 8"}
+		jobs = append(jobs, concJob("All‖grow", CacheCfg{Hashes: spread, InitCap: 1}, fill8, [][]string{{"all"}, {"set 5", "inv 1"}}, or, "small", pb, false, 8, budget, "iterations-checked", "table-grew"))
 		return jobs
 	}
 }
